@@ -11,7 +11,9 @@
 //	        d.Decode of its children), extension values (cbor tag bound to an InterfaceExt, SelfExt payloads)
 //	mix     the same with random mixtures of units
 //	deep    the same far beyond MaxDepth (10^5 .. 3*10^6 levels) in subprocesses whose stack is
-//	        capped at 64 MB (debug.SetMaxStack) under a watchdog
+//	        capped at 64 MB (debug.SetMaxStack) under a watchdog; runs of 6*10^6 units that do not nest (skipped
+//	        cbor tags); container heads claiming 0xFFFFFFFF80000000 elements (= containerLenNil once truncated);
+//	        long inputs WITHOUT nesting (3*10^6 element arrays, strings, json escapes, cbor chunks) decoded, skipped, captured
 //
 // Oracle: levels >= MaxDepth => an error (no success, no crash; the implementation refuses
 // exactly at depth == MaxDepth, see the note in checks/C14.py); levels < MaxDepth => no depth
@@ -103,6 +105,16 @@ func keyTrouble(p hx.Path, pat []hx.Unit, count int) bool {
 // jsonWalker: json's nextValueBytes is an iterative scanner; it neither recurses nor counts depth.
 func jsonWalker(f hx.Fmt, p hx.Path) bool { return f == hx.Json && p.Walker }
 
+// hostile: one of the nesting levels has a head no input can honour
+func hostile(pat []hx.Unit, count int) bool {
+	for i := 0; i < count && i < len(pat); i++ {
+		if pat[i].Hostile {
+			return true
+		}
+	}
+	return false
+}
+
 func (c *ctx) judge(stream string, f hx.Fmt, o hx.Opts, p hx.Path, pat []hx.Unit, count, eff int, in []byte, cls int, escaped bool) {
 	md := o.EffMaxDepth()
 	cid := fmt.Sprintf("%s:%s:%s", f, p.Name, patName(pat))
@@ -110,6 +122,10 @@ func (c *ctx) judge(stream string, f hx.Fmt, o hx.Opts, p hx.Path, pat []hx.Unit
 	switch {
 	case escaped:
 		c.sum.FailC(stream, "panic-escaped:"+cid, "a panic escaped Decode", cj())
+	case hostile(pat, count):
+		if cls == 0 {
+			c.sum.FailC(stream, "hostile-length-accepted:"+cid, "a container head claiming 0xFFFFFFFF80000000 elements was accepted (nested to MaxDepth or beyond: without error)", cj())
+		}
 	case eff >= md && cls == 0:
 		if jsonWalker(f, p) {
 			break // no recursion on this path (checked by the deep stream: no stack growth); depth is not enforced
@@ -340,6 +356,7 @@ func mixStream(c *ctx, n int) {
 // ---- far beyond MaxDepth, in subprocesses ----
 
 type deepJob struct {
+	Flat  string   `json:"flat,omitempty"` // a long input without nesting (hx.FlatInput) instead of a nested one
 	F     int      `json:"f"`
 	O     hx.Opts  `json:"o"`
 	Path  string   `json:"p"`
@@ -355,6 +372,12 @@ func childMain(spec string) {
 	}
 	f := hx.Fmt(j.F)
 	p := hx.PathByName(j.Path)
+	if j.Flat != "" {
+		in := p.WrapFor(f, hx.FlatInput(f, j.Flat, j.Count))
+		cls, nread, esc := hx.Run(f, j.O, p, in)
+		fmt.Printf("CHILD cls=%d nread=%d esc=%v eff=%d len=%d\n", cls, nread, esc, 1, len(in))
+		os.Exit(0)
+	}
 	us := p.UnitsFor(f, j.O)
 	var pat []hx.Unit
 	for _, n := range j.Units {
@@ -388,7 +411,7 @@ func deepStream(c *ctx, count int, all bool) {
 			}
 			us := p.UnitsFor(f, base)
 			pick := map[string]bool{"arr/w0": true, "map-val": true, "map-key": true, "arr-indef": true, "map-indef": true, "tag": true,
-				"tag-selfdescribe": true, "T.P": true, "T.A": true, "T.M": true, "tag-iext": true, "selfext": true, "arr": true}
+				"tag-selfdescribe": true, "arr-len-minint32": true, "map-len-minint32": true, "T.P-len-minint32": true, "T.P": true, "T.A": true, "T.M": true, "tag-iext": true, "selfext": true, "arr": true}
 			for _, u := range us {
 				if !all && !pick[u.Name] {
 					continue
@@ -397,23 +420,45 @@ func deepStream(c *ctx, count int, all bool) {
 				if p.Name == "ext-self" && n > 200000 {
 					n = 200000
 				}
-				jobs = append(jobs, job{deepJob{int(f), base, p.Name, []string{u.Name}, n}, []hx.Unit{u}, p})
-				if f == hx.Cbor && strings.HasPrefix(u.Name, "tag") && p.Name == "iface" {
+				if !p.Walker && u.LvDec == 0 && n < 6000000 {
+					n = 6000000 // units that do not nest (skipped tags) are not stopped by MaxDepth: only their number could grow the stack
+				}
+				jobs = append(jobs, job{deepJob{"", int(f), base, p.Name, []string{u.Name}, n}, []hx.Unit{u}, p})
+				if f == hx.Cbor && strings.HasPrefix(u.Name, "tag") && (p.Name == "iface" || p.Name == "slicei") {
 					o2 := base
 					o2.SkipTags = true
-					jobs = append(jobs, job{deepJob{int(f), o2, p.Name, []string{u.Name}, n}, []hx.Unit{u}, p})
+					n2 := n
+					if n2 < 6000000 {
+						n2 = 6000000
+					}
+					u2, _ := hx.UnitByName(p.UnitsFor(f, o2), u.Name)
+					jobs = append(jobs, job{deepJob{"", int(f), o2, p.Name, []string{u.Name}, n2}, []hx.Unit{u2}, p})
 				}
 			}
 			if len(us) >= 3 && p.Name != "ext-self" {
 				// one mixture per (format, path)
 				pat := []hx.Unit{us[c.r.Intn(len(us))], us[c.r.Intn(len(us))], us[c.r.Intn(len(us))]}
-				jobs = append(jobs, job{deepJob{int(f), base, p.Name, []string{pat[0].Name, pat[1].Name, pat[2].Name}, count / 3}, pat, p})
+				jobs = append(jobs, job{deepJob{"", int(f), base, p.Name, []string{pat[0].Name, pat[1].Name, pat[2].Name}, count / 3}, pat, p})
 			}
 			// an io.Reader transport, unbuffered, for the first unit
 			if len(us) > 0 && p.Name != "ext-self" {
 				o3 := base
 				o3.IO, o3.RBS = true, 4096
-				jobs = append(jobs, job{deepJob{int(f), o3, p.Name, []string{us[0].Name}, count}, []hx.Unit{us[0]}, p})
+				jobs = append(jobs, job{deepJob{"", int(f), o3, p.Name, []string{us[0].Name}, count}, []hx.Unit{us[0]}, p})
+			}
+		}
+	}
+	// long inputs without nesting: the stack must not grow with the input length either
+	for _, f := range hx.All {
+		for _, pn := range []string{"iface", "raw", "field", "rawfield", "ifacefield"} {
+			p := hx.PathByName(pn)
+			for _, k := range hx.FlatKinds(f) {
+				n := 3 * count
+				o := hx.Opts{WriteExt: true}
+				if c.r.Chance(1, 3) {
+					o.IO, o.RBS = true, c.r.PickInt(0, 4096)
+				}
+				jobs = append(jobs, job{deepJob{k, int(f), o, pn, nil, n}, nil, p})
 			}
 		}
 	}
@@ -455,8 +500,11 @@ func deepStream(c *ctx, count int, all bool) {
 		f := hx.Fmt(jb.j.F)
 		o := jb.j.O
 		r := results[i]
-		_, eff := effOnly(jb.p, jb.pat, jb.j.Count)
-		cid := fmt.Sprintf("%s:%s:%s", f, jb.p.Name, patName(jb.pat))
+		eff, cid := 1, fmt.Sprintf("%s:%s:flat:%s", f, jb.p.Name, jb.j.Flat)
+		if jb.j.Flat == "" {
+			_, eff = effOnly(jb.p, jb.pat, jb.j.Count)
+			cid = fmt.Sprintf("%s:%s:%s", f, jb.p.Name, patName(jb.pat))
+		}
 		cj := map[string]interface{}{"format": f.String(), "opts": o.String(), "path": jb.p.Name, "pattern": patName(jb.pat), "count": jb.j.Count,
 			"levels": eff, "maxdepth": o.EffMaxDepth(), "replay": fmt.Sprintf("%s -child '%s'", os.Args[0], mustJSON(jb.j))}
 		tail := r.out
@@ -467,7 +515,11 @@ func deepStream(c *ctx, count int, all bool) {
 		case r.timedOut:
 			c.sum.FailC("deep", "hang:"+cid, "decoding deeply nested input did not finish within 90 s", cj)
 		case r.err != nil && (strings.Contains(r.out, "stack exceeds") || strings.Contains(r.out, "stack overflow")):
-			c.sum.FailC("deep", "stack:"+cid, "nesting controlled by the input exhausted the goroutine stack (fatal, unrecoverable): recursion is not bounded by MaxDepth", cj)
+			what := "nesting controlled by the input exhausted the goroutine stack (fatal, unrecoverable): recursion is not bounded by MaxDepth"
+			if jb.j.Flat != "" {
+				what = "an input without nesting exhausted the goroutine stack (fatal, unrecoverable): stack use grows with the input length"
+			}
+			c.sum.FailC("deep", "stack:"+cid, what, cj)
 		case r.err != nil:
 			cj["output"] = tail
 			c.sum.FailC("deep", "fatal:"+cid, "the decoding subprocess died", cj)
@@ -481,6 +533,13 @@ func deepStream(c *ctx, count int, all bool) {
 				break
 			}
 			fmt.Sscanf(r.out[k:], "CHILD cls=%d nread=%d esc=%t eff=%d len=%d", &cls, &nread, &esc, &e2, &ln)
+			if jb.j.Flat != "" {
+				if esc || cls != 0 {
+					cj["class"] = cls
+					c.sum.FailC("deep", "error-on-wellformed:"+cid, "a long well-formed input without nesting failed to decode", cj)
+				}
+				break
+			}
 			c.judge("deep", f, o, jb.p, jb.pat, jb.j.Count, e2, nil, cls, esc)
 			continue
 		}
